@@ -363,3 +363,53 @@ func RangeConstIndexHits(t *Tpl) []TplRef {
 	}
 	return out
 }
+
+// TplIfChain is an if / else-if chain: the condition texts in order, and
+// whether a final unconditional else exists.
+type TplIfChain struct {
+	Conds   []string
+	HasElse bool
+	Line    int
+}
+
+// TplIfChains returns every if/else-if chain of the template (a chain is
+// reported once, from its first if).
+func TplIfChains(t *Tpl) []TplIfChain {
+	var out []TplIfChain
+	inner := map[*parse.IfNode]bool{}
+	WalkTpl(t.Tree.Root, func(n parse.Node) bool {
+		in, ok := n.(*parse.IfNode)
+		if !ok || inner[in] {
+			return true
+		}
+		ch := TplIfChain{Line: 1 + strings.Count(t.Src[:int(in.Pos)], "\n")}
+		cur := in
+		for {
+			ch.Conds = append(ch.Conds, cur.Pipe.String())
+			if cur.ElseList == nil {
+				break
+			}
+			if len(cur.ElseList.Nodes) == 1 {
+				if next, ok := cur.ElseList.Nodes[0].(*parse.IfNode); ok && int(next.Pos) > 0 && strings.Contains(t.Src[elseStart(t.Src, int(next.Pos)):int(next.Pos)], "else") {
+					inner[next] = true
+					cur = next
+					continue
+				}
+			}
+			ch.HasElse = true
+			break
+		}
+		out = append(out, ch)
+		return true
+	})
+	return out
+}
+
+// elseStart returns the offset of the "{{" opening the action that contains pos.
+func elseStart(src string, pos int) int {
+	i := strings.LastIndex(src[:pos], "{{")
+	if i < 0 {
+		return 0
+	}
+	return i
+}
